@@ -4,6 +4,8 @@ From Coq Require Import List NArith ZArith.
 From Goit Require Import Bytes Obj Regex GoRegex Commit RegexFacts CommitFacts.
 From Goit Require Import Tree Index Config World Repo TreeFacts ExactFacts CommitCmdFacts LogView LogViewFacts.
 From Goit Require Import Bridge.
+From Goit Require Import BranchFacts.
+From Goit Require Inv LogFacts SnapshotFacts PersistFacts.
 Import ListNotations.
 Local Open Scope Z_scope.
 
@@ -117,6 +119,52 @@ Theorem C12_commit_then_log : forall e c msg w root subs h,
           Some (mkSign (user_name (x_l c) (x_g c)) (user_email (x_l c) (x_g c)) (e_time e) (e_off e)), msg).
 Proof. exact log_entry_after_commit_for_ever. Qed.
 
+(* T6: the same on EVERY reachable repository, with no hypothesis on the index,
+   the tree, the sizes or the tip (they follow from reachability): in a
+   repository whose context loads and whose gate is open (an identity is
+   configured, something is staged), with an identity and a clock in the C12
+   domain, `commit -m msg` succeeds; `log` shows the new commit first, with
+   the configured name and e-mail, the instant and the offset of the call and
+   exactly [msg] ([PersistFacts.shown]); the entry stays what it is after any
+   later history, and `log` then prints the chain of HEAD, in which the commit,
+   when still there, has that entry (absent a flagged SHA-1 collision, the
+   object store within the size the model covers) *)
+Theorem C12_commit_then_log_on_every_reachable_repository : forall e msg w c,
+  Inv.Reachable w -> ctx_of w = Some c -> gate_open w c ->
+  sign_ok (user_name (x_l c) (x_g c)) (user_email (x_l c) (x_g c)) (e_time e) (e_off e) ->
+  w_coll (step_w (ACmd e (CCommit msg)) w) = false ->
+  SnapshotFacts.SmallStore (w_objs (step_w (ACmd e (CCommit msg)) w)) ->
+  exists root subs,
+    let cid := commit_id e c msg w root in
+    let w' := after_commit e c msg w root subs in
+    write_tree_top (idx_of w) = Some (root, subs) /\
+    step (ACmd e (CCommit msg)) w = (w', OOk [], do_commit_trace e c msg w root subs) /\
+    tip_of w' = Some cid /\
+    log_entry (w_objs w') cid = PersistFacts.shown e c msg cid /\
+    (forall e' n, 0 < n ->
+       exists rest, step (ACmd e' (CLog n)) w' = (w', OOk (hex cid :: rest), [])) /\
+    (forall h, w_coll (run h w') = false ->
+       log_entry (w_objs (run h w')) cid = PersistFacts.shown e c msg cid) /\
+    (forall h e' n x2 tip cm2,
+       w_coll (run h w') = false -> ctx_of (run h w') = Some x2 -> x_headc x2 = Some (tip, cm2) ->
+       exists l, LogFacts.chain (w_objs (run h w')) tip l /\ NoDup l /\
+         step (ACmd e' (CLog n)) (run h w')
+           = (run h w', OOk (map hex (firstn (Z.to_nat n) l)), []) /\
+         (In cid (firstn (Z.to_nat n) l) ->
+          In (hex cid) (map hex (firstn (Z.to_nat n) l)) /\
+          In (PersistFacts.shown e c msg cid)
+             (log_view (w_objs (run h w')) (map hex (firstn (Z.to_nat n) l))))).
+Proof. exact PersistFacts.commit_then_log_reachable. Qed.
+
+(* what [shown] is: the id in hex, the configured identity with the clock
+   reading and the zone offset of the `commit` call, the message *)
+Theorem C12_shown : forall e c msg cid,
+  PersistFacts.shown e c msg cid
+  = Some (hex cid,
+          Some (mkSign (user_name (x_l c) (x_g c)) (user_email (x_l c) (x_g c)) (e_time e) (e_off e)),
+          msg).
+Proof. reflexivity. Qed.
+
 Print Assumptions C12_sign_pattern_is_the_source_pattern.
 Print Assumptions C12_sign_shape.
 Print Assumptions C12_tz_form.
@@ -127,5 +175,7 @@ Print Assumptions C12_message_lines.
 Print Assumptions C12_message_with_carriage_returns.
 Print Assumptions C12_log_reads_back_what_was_written.
 Print Assumptions C12_commit_then_log.
+Print Assumptions C12_commit_then_log_on_every_reachable_repository.
+Print Assumptions C12_shown.
 Print Assumptions C12_sign_pattern_language.
 Print Assumptions C12_source_patterns_are_the_models.
